@@ -108,7 +108,16 @@ def check(case):
                     kw["threshold"] = 2
                 if kind not in ("hh", "st"):
                     obj = cls.frombytes(bytes(obj), **kw)
+            # an untouched twin with the same history: after the read-only calls the watched structure has to go on
+            # behaving like it (a query that re-orders or caches something inside shows only in what happens NEXT)
+            twin = None
+            reloaded = case["seed"] % 2 == 0 and kind not in ("qf", "ondisk", "hh", "st")
+            if not reloaded and not case.get("twist") and kind in ("bloom", "cbf", "cms", "cmean", "hh", "st", "expanding", "rotating", "qf"):
+                twin = make()
+                for k in case["adds"]:
+                    twin.add(k)
             before = snapshot(kind, obj)
+            bytes_before = bytes(obj) if kind != "qf" else None
             reads = []
             if kind != "qf":
                 reads.append(("bytes()", lambda: bytes(obj)))
@@ -150,6 +159,25 @@ def check(case):
                     return f"read-only call {name} raised {res[1]}"
                 if snapshot(kind, obj) != before:
                     return f"read-only call {name} changed the structure"
+            if kind != "qf":
+                # exporting is repeatable: the same bytes every time
+                b1, b2 = bytes(obj), bytes(obj)
+                if not (bytes_before == b1 == b2):
+                    return f"bytes() of the same unchanged structure gave different results on repeated calls (lengths {len(bytes_before)}, {len(b1)}, {len(b2)})"
+            if twin is not None:
+                # further additions, among them keys never seen before (they evict, where something is tracked)
+                more = case["keys"] + case["adds"][:6]
+                more = [x for pair in zip(more, ["fresh-%d" % j for j in range(len(more))]) for x in pair] if kind in ("hh", "st") else more
+                for i, k in enumerate(more):
+                    n = 1 + (i % 3)
+                    args = (k, n) if kind in ("cbf", "cms", "cmean", "hh", "st") else (k,)
+                    ra, rb = core.call(obj.add, *args), core.call(twin.add, *args)
+                    if ra != rb:
+                        return f"after the read-only calls the structure behaves differently from a twin that was never queried (add #{i} of {k!r} returned {ra[1]!r} instead of {rb[1]!r})"
+                    # the twin is looked at for the first time after the first further addition (looking at it is a
+                    # query too): that is where a difference caused by the earlier queries shows
+                    if snapshot(kind, obj) != snapshot(kind, twin):
+                        return f"after the read-only calls and {i + 1} further addition(s) the structure differs from a twin that had not been queried"
             # clear
             if hasattr(obj, "clear"):
                 obj.clear()
@@ -180,8 +208,23 @@ def check(case):
     return None
 
 
+def gen_tables(rng):
+    """directed: the structures that keep a table next to their counters, small tables, many ties — whether
+    looking at the table changes which key leaves next shows only when several tracked keys tie"""
+    kind = rng.choice(["hh", "hh", "st"])
+    keys = ["t%d" % rng.randrange(40) for _ in range(rng.randint(2, 6))]
+    return {"kind": kind, "est": 3, "fpr": 0.1, "keys": keys, "adds": [rng.choice(keys) for _ in range(rng.randint(2, 8))], "probes": keys[:2], "seed": 2 * rng.randrange(2**31) + 1,
+            "twist": False, "strat": "fnv"}
+
+
 def run(tier, seed, deep, hints):
-    return drive(tier, seed, deep, "search-C19", gen, check, None, lambda c, b: {"structure": c["kind"], "failure": b[:50]}, n_quick=250, n_thorough=5000)
+    f2, s2 = drive(tier, seed, deep, "search-C19-tables", gen_tables, check, None, lambda c, b: {"structure": c["kind"], "failure": b[:50]}, n_quick=300, n_thorough=4000)
+    if f2:
+        return f2, s2
+    f1, s1 = drive(tier, seed, deep, "search-C19", gen, check, None, lambda c, b: {"structure": c["kind"], "failure": b[:50]}, n_quick=250, n_thorough=5000)
+    s1["evaluations"] += s2["evaluations"]
+    s1["distinct_nontrivial"] += s2["distinct_nontrivial"]
+    return f1, s1
 
 
 def replay(finding):
